@@ -32,6 +32,7 @@ import (
 	"unicode"
 
 	ucfg "github.com/elastic/go-ucfg"
+	uflag "github.com/elastic/go-ucfg/flag"
 
 	"verif/internal/harness"
 )
@@ -374,6 +375,17 @@ type segment struct {
 	ok    bool // ParseInt(s, 0, 64) succeeded
 	v     int64
 	index bool // oracle role
+	syn   bool // not part of the key: the idx argument of the call
+}
+
+func keySegs(segs []segment) int {
+	n := 0
+	for _, sg := range segs {
+		if !sg.syn {
+			n++
+		}
+	}
+	return n
 }
 
 func classify(s string, st setting, single bool) segment {
@@ -521,6 +533,8 @@ type world struct {
 	sigSeen     map[string]int
 	probeCache  map[[2]int64]bool
 	poss        []position
+	leafBool    bool // the value written by the current usage is the boolean true
+	idxArg      int  // idx argument of the setter-name+idx usage (0..2)
 
 	// grow hook state (per operation)
 	allowed int
@@ -562,9 +576,18 @@ const (
 	uMap = iota
 	uSet
 	uStruct
+	uSetIdx   // setter name together with an idx argument >= 0
+	uFlag     // -D key=value through flag.NewFlagKeyValue
+	uFlagBool // -D key (auto-bool) through flag.NewFlagKeyValue
+	nUsages
 )
 
-var useName = []string{"map-key", "setter-name", "struct-tag"}
+var useName = []string{"map-key", "setter-name", "struct-tag", "setter-name+idx-argument", "flag-key=value", "flag-key-auto-bool"}
+
+// usageSuffix narrows the signature of deviations seen only through the
+// entry points added later (a defect of the shared classifier also shows,
+// with the bare signature, through the first three usages).
+var usageSuffix = []string{"", "", "", ":with-idx-argument", ":flag", ":flag"}
 
 func tagSafe(key string) bool {
 	if key == "" {
@@ -720,8 +743,13 @@ func (w *world) report(usage string, pos position, key string, st setting, segs 
 	}
 	// attribute to the first segment whose predicate can explain the class
 	sg := segs[i]
-	single := len(segs) == 1
+	single := keySegs(segs) == 1
 	sig := w.sigFor(sg, st, single, d, falseOK)
+	for u, n := range useName {
+		if n == usage && !strings.HasPrefix(sig, "panic:") {
+			sig += usageSuffix[u]
+		}
+	}
 	if w.capped(sig) {
 		return treatedAsIndex(sg, d)
 	}
@@ -829,8 +857,13 @@ func (w *world) observeShape(c *ucfg.Config, segs []segment, val int64) (dev *de
 		}
 		cur = levelOf(cur.next)
 	}
-	if cur.kind != "leaf" || !numEq(cur.next, val) {
-		return &deviation{at: len(segs), obs: "leaf-wrong", detail: fmt.Sprintf("below the last segment: %s, want the value %d", describeLevel(cur), val)}, maxList
+	leafOK := cur.kind == "leaf" && numEq(cur.next, val)
+	if w.leafBool {
+		b, isB := cur.next.(bool)
+		leafOK = cur.kind == "leaf" && isB && b
+	}
+	if !leafOK {
+		return &deviation{at: len(segs), obs: "leaf-wrong", detail: fmt.Sprintf("below the last segment: %s, want the value %d (auto-bool flag: true)", describeLevel(cur), val)}, maxList
 	}
 	return nil, maxList
 }
@@ -910,6 +943,17 @@ func (w *world) builder(u int, pos position, key string, st setting, segs []segm
 		c   *ucfg.Config
 		err error
 	)
+	shape := segs // what the config must look like: the key's segments (+ the idx argument)
+	if u == uSetIdx {
+		j := w.idxArg
+		if int64(j) > st.m {
+			j = int(st.m)
+		}
+		shape = append(append([]segment{}, segs...), segment{s: strconv.Itoa(j), ok: true, v: int64(j), index: true, syn: true})
+		if j+1 > allowed {
+			allowed = j + 1
+		}
+	}
 	w.arm(allowed)
 	panicked, pv, where := harness.Safe(func() {
 		switch u {
@@ -918,6 +962,19 @@ func (w *world) builder(u int, pos position, key string, st setting, segs []segm
 		case uSet:
 			c = ucfg.New()
 			err = c.SetInt(key, -1, w.val, opts...)
+		case uSetIdx:
+			c = ucfg.New()
+			err = c.SetInt(key, int(shape[len(shape)-1].v), w.val, opts...)
+		case uFlag, uFlagBool:
+			arg := key
+			if u == uFlag {
+				arg = key + "=" + strconv.FormatInt(w.val, 10)
+			}
+			fv := uflag.NewFlagKeyValue(ucfg.New(), u == uFlagBool, opts...)
+			if err = fv.Set(arg); err == nil {
+				err = fv.Error()
+			}
+			c = fv.Config()
 		case uStruct:
 			sv := reflect.New(T).Elem()
 			sv.Field(0).SetInt(w.val)
@@ -984,7 +1041,9 @@ func (w *world) builder(u int, pos position, key string, st setting, segs []segm
 		}
 	default:
 		var ml int
-		dev, ml = w.observeShape(c, segs, w.val)
+		w.leafBool = u == uFlagBool
+		dev, ml = w.observeShape(c, shape, w.val)
+		w.leafBool = false
 		if ml > slots {
 			slots = ml
 		}
@@ -1000,7 +1059,7 @@ func (w *world) builder(u int, pos position, key string, st setting, segs []segm
 		w.res.SetAdd("list_reached_max_plus_1", fmt.Sprintf("m=%d", st.m))
 	}
 	if dev != nil {
-		wrongIndex = w.report(usage, pos, key, st, segs, *dev, falseOK)
+		wrongIndex = w.report(usage, pos, key, st, shape, *dev, falseOK)
 		return true, wrongIndex
 	}
 	for _, sg := range segs {
@@ -1027,16 +1086,28 @@ func (w *world) sameKey(c *ucfg.Config, pos position, key string, st setting, se
 	var (
 		has, removed, hasAfter bool
 		got                    int64
-		e1, e2, e3, e4         error
+		cnt                    int
+		e1, e2, e3, e4, e5     error
 	)
 	panicked, pv, where := harness.Safe(func() {
 		has, e1 = c.Has(key, -1, opts...)
 		got, e2 = c.Int(key, -1, opts...)
+		cnt, e5 = c.CountField(key, opts...)
 		removed, e3 = c.Remove(key, -1, opts...)
 		hasAfter, e4 = c.Has(key, -1, opts...)
 	})
-	w.res.Eval(4)
+	w.res.Eval(5)
 	ctx := fmt.Sprintf("config built from map key %q (%s, PathSep=%q, %s; oracle: %s)", key, pos.name, pos.sep, st, describeSegs(segs))
+	if !panicked && e1 == nil && has && e2 == nil && got == w.val {
+		// CountField takes the same name as the getters: a primitive counts as 1
+		if e5 != nil || cnt != 1 {
+			if sig := countFieldSig(segs); !w.capped(sig) {
+				w.res.Violate(sig, "CountField(%q) = %d, %v, want 1, nil like Has = true and Int = %d with the same name and options on %s", key, cnt, e5, got, ctx)
+			}
+		} else {
+			w.res.Ev("countfield_same_key_confirmed", 1)
+		}
+	}
 	switch {
 	case panicked:
 		w.res.Violate("panic:"+firstFrame(where), "getters with the same key on %s: panic %q at %s", ctx, pv, where)
@@ -1383,10 +1454,10 @@ func (w *world) runString(s string, sts []setting) (wrongIndex bool) {
 		if tagSafe(key) {
 			T = structType(key)
 		}
-		var fstate [3]int8 // see getters
+		var fstate [nUsages]int8 // see getters
 		for i, st := range sts {
 			if i == 0 || sts[i-1].m != st.m {
-				fstate = [3]int8{}
+				fstate = [nUsages]int8{}
 			}
 			segs := expect(key, pos.sep, st)
 			for _, sg := range segs {
@@ -1395,14 +1466,25 @@ func (w *world) runString(s string, sts []setting) (wrongIndex bool) {
 					break
 				}
 			}
-			for u := uMap; u <= uStruct; u++ {
+			for u := uMap; u < nUsages; u++ {
 				if u == uStruct && T == nil {
 					continue
 				}
-				if u == uSet && key == "" {
+				if u != uMap && u != uStruct && key == "" {
 					continue
 				}
-				if u != uSet && segs[0].index && segs[0].v > w.capTop {
+				if (u == uFlag || u == uFlagBool) && strings.Contains(key, "=") {
+					continue // the flag splits its argument at the first '='
+				}
+				if u == uFlagBool && i != 0 {
+					continue // the auto-bool branch differs in how the key is cut out, not in the options
+				}
+				if u == uSetIdx && st.m < 0 {
+					// no idx argument is within [0, MaxIdx]: what the call does is not pinned
+					w.res.Ev("skipped_idx_argument_under_negative_max", 1)
+					continue
+				}
+				if u != uSet && u != uSetIdx && segs[0].index && segs[0].v > w.capTop {
 					// legitimate top-level index built through Merge: quadratic in v
 					w.res.Ev("skipped_costly_top_level_index", 1)
 					continue
@@ -1427,8 +1509,13 @@ func (w *world) runString(s string, sts []setting) (wrongIndex bool) {
 		}
 		if heavy && pi != 0 {
 			w.res.Ev("skipped_large_interior_index", 1)
-		} else if w.getters(pos, s, key, sts, T) {
-			wrongIndex = true
+		} else {
+			if w.getters(pos, s, key, sts, T) {
+				wrongIndex = true
+			}
+			if w.gettersIdx(pos, s, key, sts) {
+				wrongIndex = true
+			}
 		}
 	}
 	if w.verbose {
@@ -1502,6 +1589,7 @@ func (check) Run(seed int64, tier string, idx int, verbose bool) harness.Result 
 	w.p = pNames[r.Intn(len(pNames))]
 	w.q = qNames[r.Intn(len(qNames))]
 	w.val = int64(1 + r.Intn(5)) // never 7 (nameValue) and never >= 100
+	w.idxArg = int(w.val % 3)
 	w.capTop, w.capInterior = 1024, 300
 	if tier == "thorough" {
 		w.capTop, w.capInterior = 1024, 1024
@@ -1534,6 +1622,8 @@ func (w *world) runChunk(idx, nChunks int) {
 	for i := 0; i < 2; i++ {
 		strs = append(strs, randomString(w.r))
 	}
+	// white-space padded literals: one of the table (all of it over the cases) and one seed-chosen
+	strs = append(strs, wsTable[idx%len(wsTable)], randomPadded(w.r))
 	if idx < 2 {
 		w.res.Sample = map[string]interface{}{"strings": strs, "p": w.p, "q": w.q, "value": w.val, "settings": len(allSettings), "positions": len(w.poss)}
 	}
